@@ -86,4 +86,9 @@ META = {
         text="Exploration: generated histories of submit / deposit / vote / cancel / per-type parameter updates / deadline-aligned time steps over several concurrent proposals of different message types are compared step by step with a reference model: deposit books, activation minimum per type, voting period and quorum per type, refund-or-burn exactly once, all-or-nothing execution.",
         note="Expedited proposals are outside the generated domain.",
     ),
+    "C17": dict(
+        technique="differential property-based testing (rapid): each generated block history is executed on several fresh replicas, one of them in a re-executed child process with different runtime settings, and the per-block application hashes, FinalizeBlock responses, transaction results, event lists and per-operation outcomes are compared",
+        text="Exploration: generated block histories over the crosschain, erc20, precompile, gov and migrate code paths with real FinalizeBlock + Commit; replicas must agree on every observable of every block.",
+        note="Detection of a dependence on map order or time is probabilistic per replica; the evidence reports replicas, blocks and events compared.",
+    ),
 }
